@@ -68,7 +68,8 @@ TRUSTED = ["PARTIAL: HTTP (Flask, werkzeug), JSON encoding/decoding, dpath, PyYA
            "a situation into the population and id lists given to the model, flattening of JSON documents to depth-4 paths",
            "the engine values in the table-backed model operations come from the harness's own simulations of the real "
            "engine (second system instance, new SimulationBuilder, one simulation per requested variable and period)"]
-ASSUMPTIONS = ["values are exactly representable (ints below 2^22, floats multiples of 1/64): float rendering "
+ASSUMPTIONS = ["generated rule systems are ranked in the sense of C01 (no self-dependence, eternal variables have no formula)",
+               "values are exactly representable (ints below 2^22, floats multiples of 1/64): float rendering "
                "float(str(float32)) and the float32 arithmetic of assert_near are then exact; other cases are skipped and counted",
                "YAML margins are >= 0; expected dates are full ISO dates; expectations of numeric variables are numbers "
                "(no numexpr strings); bool outputs are compared numerically as 0/1 by the code (modelled; an absolute "
@@ -331,11 +332,11 @@ def period_text(p):
     return "".join(str(rules.mk_period(p)))       # a plain str (Period.__str__ returns a subclass)
 
 
-def gen_cells(rng, vt, year, dense=0.7):
+def gen_cells(rng, vt, year, dense=0.7, extras=0.35):
     """(variable, period key) pairs, each period valid for the variable"""
     cells = []
     for name, x in vt.items():
-        if rng.random() > (dense if x["rule"] is not None else 0.35):
+        if rng.random() > (dense if x["rule"] is not None else extras):
             continue
         for _ in range(1 if rng.random() < 0.7 else 2):
             if x["unit"] == "eternity":
@@ -383,7 +384,9 @@ def gen_population(rng):
 
 def gen_situation(rng, vt, pop, pids, hids, year, p_null, p_input, with_groups=True):
     """A situation in the entities form; returns (doc, number of null slots)."""
-    cells = gen_cells(rng, vt, year)
+    # half of the situations only mention rule-language variables (the model then also computes
+    # the values itself, on the machine of Engine.v)
+    cells = gen_cells(rng, vt, year, extras=rng.choice([0.0, 0.35]))
     persons = {pid: {} for pid in pids}
     households = {}
     for g, hid in enumerate(hids):
@@ -474,10 +477,21 @@ def default_pop(n):
     return {"count": n, "ids": list(range(n)), "roles": [0] * n}
 
 
-def gen_api_case(rng):
+def gen_sys(rng):
     sysj = rules.gen_system(rng, API_PROFILE)
     for v in sysj["vars"]:
         v.pop("divisible", None)
+        if v["unit"] == "eternity":
+            # C01's [ranked]: eternal variables have no formula.  (An eternal variable with dated formulas has one
+            # cache slot for all periods: what a later request reads then depends on which period was asked first
+            # in the same simulation - engine behaviour, not this property's subject.)
+            v["formulas"] = []
+            v["end"] = None
+    return sysj
+
+
+def gen_api_case(rng):
+    sysj = gen_sys(rng)
     vt = var_table(sysj)
     docs = []
     ops = []
@@ -650,9 +664,7 @@ def full_inputs(rng, vt, pop, pids, hids, year):
 
 
 def gen_yaml_case(rng):
-    sysj = rules.gen_system(rng, API_PROFILE)
-    for v in sysj["vars"]:
-        v.pop("divisible", None)
+    sysj = gen_sys(rng)
     vt = var_table(sysj)
     with warnings.catch_warnings():
         warnings.simplefilter("ignore")
@@ -680,7 +692,7 @@ def gen_yaml_test(rng, sysj, vt, tbs, k):
     for name in names[:rng.randint(1, 3)]:
         x = vt[name]
         if x["unit"] == "eternity":
-            pk = rng.choice(["ETERNITY", str(period)])
+            pk = rng.choice(["ETERNITY", str(period)]) if not x.get("formulas") else str(period)
         elif rng.random() < 0.05:
             pk = {"month": str(year), "year": f"{year}-02"}.get(x["unit"], str(year))     # wrong unit: an error
         else:
@@ -704,7 +716,7 @@ def gen_yaml_test(rng, sysj, vt, tbs, k):
         ids = pids if x["ent"] == "person" else hids
         am, rm = effective_margins(test, name)
         layout = rng.choice(["variable", "entity", "instance"])
-        want = rng.choice(["equal", "inside", "at", "beyond", "equal", "at"])
+        want = rng.choice(["equal", "inside", "at", "at", "beyond", "equal", "at"])
         if isinstance(arr, Err):
             exp = [0] * len(ids)
             got = ["error"] * len(ids)
@@ -752,7 +764,7 @@ def gen_yaml_test(rng, sysj, vt, tbs, k):
 # ---------------------------------------------------------------------------------------
 
 def generate(rng, tier):
-    n_api, n_yaml = {"quick": (34, 24), "escalated": (120, 80), "thorough": (400, 250)}[tier]
+    n_api, n_yaml = {"quick": (48, 30), "escalated": (120, 80), "thorough": (400, 250)}[tier]
     cases = []
     with warnings.catch_warnings():
         warnings.simplefilter("ignore")
